@@ -624,7 +624,7 @@ RcSector(b, off, par, p) ==
             [] par.c2ei = 2 -> { Bl(p \o "/c2ei/data", Bs(b, off + ms, 296)) } [] OTHER -> {})
     \cup (IF RcSub(par) > 0 THEN { Bl(p \o "/subchannel/data", Bs(b, off + ms + RcC2(par), RcSub(par))) } ELSE {})
 P_ReadCd(b, par) == UNION { RcSector(b, i * RcStride(par), par, ToString(par.lba + i)) : i \in 0..(par.tl - 1) }
-Ok_ReadCd(b, par) == RcMain(par) # <<>> /\ par.scsb \in {0, 2, 4} /\ par.c2ei \in 0..2 /\ Len(b) >= par.tl * RcStride(par)
+Ok_ReadCd(b, par) == par.est \in 1..4 /\ RcMain(par) # <<>> /\ par.scsb \in {0, 2, 4} /\ par.c2ei \in 0..2 /\ Len(b) >= par.tl * RcStride(par)
 
 \* ---- dispatch -----------------------------------------------------------------------------------
 Formats == { "ReadCapacity10", "ReadCapacity16", "ReportLuns", "GetLBAStatus", "InquiryStd", "Vpd00", "Vpd80",
